@@ -1760,6 +1760,9 @@ class SSHOpenSSHCertificate(SSHCertificate):
             elif critical:
                 raise KeyImportError('Unrecognized critical option: ' +
                                      name.decode('ascii', errors='replace'))
+            else:
+                # Skip over the value of an unrecognized extension
+                packet.get_string()
 
         return result
 
